@@ -313,7 +313,7 @@ def plan_C02(ctx, rt):
                                  dict(n=4, steps=70, backend="mem", regime="causal", profile="members", oot=2, mfd=5, maxpast=2)]
     pr["thorough"] = pr["thorough"] + [dict(n=30, steps=80, backend=["mem", "sql", "mixed"][i % 3], regime="causal", profile=["core", "members"][i % 2],
                                             oot=[1, 2, 0, 3][i % 4], mfd=[2, 5, 1, 3][i % 4], maxpast=[5, 2, 1, 3][i % 4]) for i in range(4)]
-    return run_marmot(ctx, rt, invariants=["InvC02"], properties=["ActC02"], view="C02", mc=MC_CORE, profiles=pr,
+    return run_marmot(ctx, rt, invariants=["InvC02"], properties=["ActC02"], view="C02", mc=MC_CORE, profiles=pr, schedules=["rejoin_same_epoch.json"],
                       nontrivial=nt_msgs, assumptions=ASSUME_MARMOT,
                       rule="as C01, plus configurations with out_of_order_tolerance in {0..3}, maximum_forward_distance in {1..5}, "
                            "max_past_epochs in {1..5} and senders talking in bursts; non-trivial = at least one message created and stored at another member")
@@ -423,7 +423,7 @@ def nt_welcome(h):
 
 def plan_C16(ctx, rt):
     return run_marmot(ctx, rt, invariants=["InvC16", "InvC08"], properties=["ActC16", "ActC16Join"], view="C16", mc=MC_MEMBER,
-                      profiles=welcome_profiles(), nontrivial=nt_welcome, assumptions=ASSUME_MARMOT, schedules=["two_welcomes.json"],
+                      profiles=welcome_profiles(), nontrivial=nt_welcome, assumptions=ASSUME_MARMOT, schedules=["two_welcomes.json", "rejoin_same_epoch.json"],
                       rule="directed-random invitation scenarios: valid welcome, the same rumor replayed under fresh wrapper ids, welcome "
                            "handed to a non-recipient, process/accept/decline in random order and repetition, interleaved with messages and "
                            "commits, remove + re-invite with the joiner having / not having processed its removal; recipients in every state "
